@@ -10,8 +10,26 @@ IMPORTS = ["Cstl.Heap.Props"]
 
 THEOREMS = {
     "C07": [
+        "Cstl.Heap.fls_spec",
+        "Cstl.Heap.fls_zero",
+        "Cstl.Heap.path_numbering",
+        "Cstl.Heap.findSlot_level_order",
+        "Cstl.Heap.complete_findSlot",
+        "Cstl.Heap.findSlot_bfs",
+        "Cstl.Heap.heapOrdered_iff_local",
+        "Cstl.Heap.inv_empty",
+        "Cstl.Heap.push_spec",
+        "Cstl.Heap.get_spec",
+        "Cstl.Heap.pop_spec",
+        "Cstl.Heap.empty_null",
+        "Cstl.Heap.size_eq",
+        "Cstl.Heap.step_inv",
+        "Cstl.Heap.runFrom_inv",
+        "Cstl.Heap.run_inv",
+        "Cstl.Heap.run_max",
     ],
     "C15": [
+        "Cstl.Heap.clear_spec",
     ],
 }
 
@@ -190,6 +208,36 @@ def closure_state(line):
         return line
     return "n=%d c=%d %s%s" % (st["n"], st["c"], ",".join("%d:%d" % (s, k) for s, _, k in st["nodes"]),
                                st["bad"] or "")
+
+
+def drained(script):
+    """the script followed by pops until the heap must be empty (+1): whatever an
+    operation did to the tree becomes visible in the results"""
+    n = 0
+    for op in script:
+        if op.startswith("push"):
+            n += 1
+        elif op == "pop":
+            n = max(0, n - 1)
+        elif op == "clear":
+            n = 0
+    return list(script) + ["pop"] * (n + 1)
+
+
+def all_histories(length, nprio):
+    """every sequence of `length` operations from {push k (k < nprio), pop},
+    each followed by a drain"""
+    out = []
+
+    def rec(prefix, nid):
+        if len(prefix) == length:
+            out.append(drained(prefix))
+            return
+        for k in range(nprio):
+            rec(prefix + ["push %d %d" % (k, nid)], nid + 1)
+        rec(prefix + ["pop"], nid)
+    rec([], 1)
+    return out
 
 
 def fls_scripts(rng, nrandom):
